@@ -250,6 +250,7 @@ def run_check(pid, tier, seed):
     enum_cases = list(mod.enumerate_cases(tier)) if hasattr(mod, "enumerate_cases") else []
     n_total = mod.examples(tier)
     per = max(1, (n_total + WORKERS - 1) // WORKERS) if n_total else 0
+    runner.scratch_root()  # workers nest their scratch under this one (removed at exit)
     with ctx.Pool(WORKERS) as pool:
         jobs = []
         if enum_cases:
@@ -356,6 +357,7 @@ def survey(pid, tier, seed, n):
     mod = load_prop(pid)
     ctx = multiprocessing.get_context("fork")
     per = max(1, n // WORKERS)
+    runner.scratch_root()  # workers nest their scratch under this one (removed at exit)
     with ctx.Pool(WORKERS) as pool:
         res = pool.map(_worker_generate, [(pid, tier, seed, w, per, True) for w in range(WORKERS)])
     hist = collections.Counter()
